@@ -190,6 +190,11 @@ int main(int argc, char *argv[])
                 + sizeof(float) > (uint64_t)res) {
             continue;
         }
+        // An interoperable path occupies at least its two length octets; a smaller
+        // size means the 16 bit size computation wrapped around (length >= 65534)
+        if (addrMode == VSS_INTEROP_MODE && Avtp_Vss_CalcVssPathLength((Avtp_Vss_t*)acf_pdu) < sizeof(uint16_t)) {
+            continue;
+        }
         if (addrMode == VSS_INTEROP_MODE) {
             path.vss_interop_path.path = path_buffer;   // the decoder copies the path here
         }
